@@ -84,7 +84,8 @@ JudgeQueries(T, D, set, r, P, e, ref) ==
         c == e.cons  sc == e.scores  m == e.mcct
         M == Max({Cardinality(ScoreSplits(D[T[i]])) : i \in 1..Len(T)})
         \* "internal split" unambiguous for every tree, and the products fit TLC's integers
-        defined == (\A i \in 1..Len(T) : ScoreDefined(D[T[i]])) /\ Pow(d.sumW, M) < Cap
+        \* (the harness turns exp(score) into a fraction with a denominator of at most 4,000,000: vlib/x_c06.rat_exp)
+        defined == (\A i \in 1..Len(T) : ScoreDefined(D[T[i]])) /\ Pow(d.sumW, M) <= 4000000
         creds == TLCEval([i \in 1..Len(T) |-> CredFrac(D[T[i]], d)])
         nums == TLCEval([i \in 1..Len(T) |-> CredNum(D[T[i]], d, M)])
         best == {i \in 1..Len(T) : \A i2 \in 1..Len(T) : nums[i] >= nums[i2]}
